@@ -429,8 +429,11 @@ pub fn rw_abstract(p: &Program, rng: &mut Rng) -> Option<(Program, Applied)> {
                 E::Paren(i) => mark(i, k, out, under_rec),
                 E::Ann { e: i, .. } => mark(i, k, out, under_rec),
                 other => {
+                    // `|` has the kind of its operands: taking the only resolved operand out of a rec body
+                    // `{ } | x | x` leaves `rec x p | x | x`, as unresolved as `rec x p`
+                    let pass = under_rec && matches!(other, E::Op { op: OpK::Sum, .. });
                     for c in other.children() {
-                        mark(c, k, out, false);
+                        mark(c, k, out, pass);
                     }
                 }
             }
@@ -628,12 +631,21 @@ pub fn rw_rename_qualifier(p: &Program, rng: &mut Rng) -> Option<(Program, Appli
     ))
 }
 
-/// (5) permute statements (use statements stay first, in order).
+/// (5) permute statements (use statements keep their relative order).
 pub fn rw_permute(p: &Program, rng: &mut Rng) -> Option<(Program, Applied)> {
     let mut q = p.clone();
     for m in q.modules.iter_mut() {
-        let first = m.stmts.iter().position(|s| !matches!(s, Stmt::Use { .. })).unwrap_or(m.stmts.len());
-        rng.shuffle(&mut m.stmts[first..]);
+        // `use` statements keep their relative order and may stand anywhere
+        let uses: Vec<Stmt> = m.stmts.iter().filter(|s| matches!(s, Stmt::Use { .. })).cloned().collect();
+        let mut rest: Vec<Stmt> = m.stmts.iter().filter(|s| !matches!(s, Stmt::Use { .. })).cloned().collect();
+        rng.shuffle(&mut rest);
+        let mut at = 0;
+        for u in uses {
+            at = rng.range(at, rest.len());
+            rest.insert(at, u);
+            at += 1;
+        }
+        m.stmts = rest;
     }
     Some((
         q,
